@@ -465,8 +465,36 @@ pub fn fam_isolated(d: &mut Decider, tmax: usize) -> GSpec {
 
 /// A closed graph-like diagram from one of the families (or a disjoint union).
 pub fn closed_diagram(d: &mut Decider, nmax: usize, tmax: usize) -> (GSpec, &'static str) {
-    let fam = d.choose("fam", 12);
+    let fam = d.choose("fam", 14);
     let (mut g, name) = match fam {
+        12 | 13 => {
+            // repeated components: several copies of the same small multi-T component next to
+            // copies of another one (splitting, sharing or de-duplicating work between identical
+            // components is where a parallel decomposer is tempted to be clever)
+            let mut g = GSpec::empty();
+            let kinds = 2 + d.choose("rep.kinds", 2);
+            let mut t_left = tmax;
+            for _ in 0..kinds {
+                let per = (t_left / 2).clamp(1, 3);
+                let comp = match d.choose("rep.fam", 3) {
+                    0 => fam_er(d, 4, per),
+                    1 => fam_cat(d, per.max(3)),
+                    _ => fam_isolated(d, per.min(2)),
+                };
+                let copies = 1 + d.choose("rep.copies", 3);
+                for _ in 0..copies {
+                    if comp.tcount() > t_left {
+                        break;
+                    }
+                    t_left -= comp.tcount();
+                    g.union(&comp);
+                }
+            }
+            if g.verts.is_empty() {
+                g = fam_isolated(d, 2);
+            }
+            (g, "repeat")
+        }
         0..=3 => (fam_er(d, nmax, tmax), "er"),
         4..=5 => (fam_cat(d, tmax), "cat"),
         6..=7 => (fam_gadget(d, tmax), "gadget"),
